@@ -36,7 +36,7 @@ EXPLANATION = (
     "R14e the line loop delivers the current line once, then increments the counter once, then fetches the next line "
     "once, on every path; the first line is number 1; R14f no dispatcher rebinds its context parameter (the object "
     "whose output file receives the line after the loop); R14g a provider that was consumed by the tokenizer is "
-    "reset before anything reads lines from it; R14i all dispatcher calls of one pass use the same per-plugin context map; R14h the line providers split the document on the newline character only (no str.splitlines / regular expressions). R14n the dispatch lists are written only while the configuration is applied; R14o a dispatcher that reads the fix line after a callback emptied it before the callback on every fix-mode path; a scan tokenizes unconditionally and the file provider reads in text mode with universal newlines. Not decided: the exact text of each delivered line (final-newline "
+    "reset before anything reads lines from it; R14i all dispatcher calls of one pass use the same per-plugin context map; R14h the line providers split the document on the newline character only (no str.splitlines / regular expressions). R14n the dispatch lists are written only while the configuration is applied; R14o a dispatcher that reads the fix line after a callback emptied it before the callback on every fix-mode path; R14p every identifier a rule is registered under (id and names) is lower-cased where the rule's details are unpacked, as the -d / -e and configuration look-ups are, so that a disabled rule receives nothing whatever capitals its author used; a scan tokenizes unconditionally and the file provider reads in text mode with universal newlines. Not decided: the exact text of each delivered line (final-newline "
     "arithmetic), which tokens the parser produces."
 )
 ASSUMPTIONS = [
@@ -1042,6 +1042,207 @@ def r14h(ctx: Context) -> None:
         rule.fail(func_key(provider, node), where(provider, node), "the file provider strips characters from lines: trailing whitespace that rules must see is lost")
 
 
+FOUND_PLUGIN = "pymarkdown.plugin_manager.found_plugin.FoundPlugin"
+_CASE_KEEPING = {"strip", "lstrip", "rstrip", "split", "rsplit", "splitlines", "removeprefix", "removesuffix", "partition", "rpartition"}
+
+
+def identifiers_lowered(ctx: Context, rule_id: str = "R14p") -> None:
+    """Whether a rule is switched off is decided by looking its identifiers up in what the user wrote, lower-cased
+    (-d / -e lists, 'plugins.<identifier>' sections).  So every identifier a rule is registered under - its id and
+    each of its names - is lower-cased where the rule's details are unpacked; one that keeps the author's capitals can
+    never be matched: the rule stays enabled and receives the whole life-cycle although the user disabled it."""
+    prog = ctx.prog
+    rule = ctx.rule(rule_id, "every identifier a rule is registered under is lower-cased (as the look-ups are)", 2)
+    record = prog.cls(FOUND_PLUGIN)
+    fields = list(record.class_attr_types)
+    if "plugin_identifiers" not in fields:
+        raise AnalysisError("FoundPlugin has no plugin_identifiers field (anchor moved)")
+    manager = prog.cls(PM)
+
+    def assignments(func: FuncInfo, name: str) -> List[Tuple[str, ast.AST, Optional[int]]]:
+        """('value', expr, index-in-unpacked-tuple or None) | ('element', iterable, None) | ('added', expr, None)"""
+        out: List[Tuple[str, ast.AST, Optional[int]]] = []
+        for node in walk_local(func.node):
+            if isinstance(node, (ast.Assign, ast.AnnAssign)) and node.value is not None:
+                targets = node.targets if isinstance(node, ast.Assign) else [node.target]
+                for target in targets:
+                    if isinstance(target, ast.Name) and target.id == name:
+                        out.append(("value", node.value, None))
+                    elif isinstance(target, (ast.Tuple, ast.List)):
+                        for index, element in enumerate(target.elts):
+                            if isinstance(element, ast.Name) and element.id == name:
+                                out.append(("value", node.value, index))
+            elif isinstance(node, ast.NamedExpr) and node.target.id == name:
+                out.append(("value", node.value, None))
+            elif isinstance(node, (ast.For, ast.comprehension)) and isinstance(node.target, ast.Name) and node.target.id == name:
+                out.append(("element", node.iter, None))
+            elif isinstance(node, ast.Call) and isinstance(node.func, ast.Attribute) and isinstance(node.func.value, ast.Name) and node.func.value.id == name:
+                if node.func.attr in ("append", "add") and node.args:
+                    out.append(("added", node.args[0], None))
+                elif node.func.attr in ("extend", "update") and node.args:
+                    out.append(("element", node.args[0], None))
+                elif node.func.attr == "insert" and len(node.args) > 1:
+                    out.append(("added", node.args[1], None))
+        return out
+
+    parent_maps: Dict[str, Dict[int, ast.AST]] = {}
+
+    def is_lower_chain(value: ast.AST) -> bool:
+        while isinstance(value, ast.Call) and isinstance(value.func, ast.Attribute) and value.func.attr in _CASE_KEEPING:
+            value = value.func.value
+        return isinstance(value, ast.Call) and isinstance(value.func, ast.Attribute) and value.func.attr in ("lower", "casefold")
+
+    def dominating_lowering(func: FuncInfo, use: ast.Name, found: List[Tuple[str, ast.AST, Optional[int]]]) -> bool:
+        """A lower-casing re-definition of the name ('x = x.strip().lower()', 'if x := x.strip().lower():') that is
+        executed on every path to this use, with no other definition of the name between the two."""
+        if not hasattr(use, "lineno"):
+            return False
+        if func.qualname not in parent_maps:
+            parent_maps[func.qualname] = {id(child): node for node in ast.walk(func.node) for child in ast.iter_child_nodes(node)}
+        parents = parent_maps[func.qualname]
+
+        def ancestors(node: ast.AST) -> List[ast.AST]:
+            out = []
+            while id(node) in parents:
+                node = parents[id(node)]
+                out.append(node)
+            return out
+
+        use_pos = (use.lineno, use.col_offset)
+        use_chain = [use] + ancestors(use)
+        best: Optional[Tuple[int, int]] = None
+        for node in walk_local(func.node):
+            if isinstance(node, ast.NamedExpr) and node.target.id == use.id:
+                value = node.value
+            elif isinstance(node, ast.Assign) and len(node.targets) == 1 and isinstance(node.targets[0], ast.Name) and node.targets[0].id == use.id:
+                value = node.value
+            else:
+                continue
+            pos = (node.lineno, node.col_offset)
+            if pos >= use_pos or not is_lower_chain(value):
+                continue
+            stmt = node if isinstance(node, ast.stmt) else next((a for a in ancestors(node) if isinstance(a, ast.stmt)), None)
+            if stmt is None:
+                continue
+            dominated = False
+            if isinstance(stmt, (ast.If, ast.While)) and not isinstance(node, ast.stmt):
+                test = stmt.test
+                first = test.values[0] if isinstance(test, ast.BoolOp) else test
+                if first is node:
+                    dominated = any(any(anc is body_stmt for anc in use_chain) for body_stmt in stmt.body)
+            elif isinstance(node, ast.stmt):
+                holder = parents.get(id(stmt))
+                for field in ("body", "orelse", "finalbody"):
+                    block = getattr(holder, field, None)
+                    if isinstance(block, list) and any(item is stmt for item in block):
+                        index = next(i for i, item in enumerate(block) if item is stmt)
+                        dominated = any(any(anc is later for anc in use_chain) for later in block[index + 1:])
+            if dominated and (best is None or pos > best):
+                best = pos
+        if best is None:
+            return False
+        for _, value, _ in found:
+            pos = (getattr(value, "lineno", 0), getattr(value, "col_offset", 0))
+            if best < pos < use_pos and not is_lower_chain(value):
+                return False
+        return True
+
+    def lowered(func: FuncInfo, expr: ast.AST, seen: Set[Tuple[str, str]], pick: Optional[int] = None) -> Optional[ast.AST]:
+        """None when every value of expr is lower-cased; otherwise the expression where a value enters unlowered."""
+        if pick is not None and isinstance(expr, (ast.Tuple, ast.List)) and pick < len(expr.elts):
+            return lowered(func, expr.elts[pick], seen)
+        if isinstance(expr, ast.Constant):
+            return None if not isinstance(expr.value, str) or expr.value == expr.value.lower() else expr
+        if isinstance(expr, (ast.List, ast.Tuple, ast.Set)):
+            for element in expr.elts:
+                bad = lowered(func, element.value if isinstance(element, ast.Starred) else element, seen)
+                if bad is not None:
+                    return bad
+            return None
+        if isinstance(expr, (ast.ListComp, ast.SetComp, ast.GeneratorExp)):
+            return lowered(func, expr.elt, seen)
+        if isinstance(expr, ast.IfExp):
+            return lowered(func, expr.body, seen) or lowered(func, expr.orelse, seen)
+        if isinstance(expr, ast.NamedExpr):
+            return lowered(func, expr.value, seen)
+        if isinstance(expr, ast.Subscript):
+            return lowered(func, expr.value, seen)
+        if isinstance(expr, ast.Call):
+            if isinstance(expr.func, ast.Attribute) and expr.func.attr in ("lower", "casefold"):
+                return None
+            if isinstance(expr.func, ast.Attribute) and expr.func.attr in _CASE_KEEPING:
+                return lowered(func, expr.func.value, seen)
+            if isinstance(expr.func, ast.Name) and expr.func.id in ("list", "tuple", "set", "sorted", "str", "frozenset") and expr.args:
+                return lowered(func, expr.args[0], seen)
+            if isinstance(expr.func, ast.Name) and expr.func.id in ("list", "set") and not expr.args:
+                return None
+            site = next((s for s in prog.sites_in(func) if s.node is expr), None)
+            if site is not None and site.targets and not site.wild:
+                for target in site.targets:
+                    if (target.qualname, "<return>") in seen:
+                        continue
+                    seen = seen | {(target.qualname, "<return>")}
+                    for ret in [n for n in walk_local(target.node) if isinstance(n, ast.Return) and n.value is not None]:
+                        bad = lowered(target, ret.value, seen, pick)
+                        if bad is not None:
+                            return bad
+                return None
+            return expr
+        if isinstance(expr, ast.Name):
+            if (func.qualname, expr.id) in seen:
+                return None
+            seen = seen | {(func.qualname, expr.id)}
+            found = assignments(func, expr.id)
+            if not found:
+                return expr
+            if dominating_lowering(func, expr, found):
+                return None
+            # an unconditional re-assignment at the top level of the function, after every other write, is the value
+            # the name has from there on ('x = x.strip().lower()' behind a 'try' that fetched x)
+            top_level = {id(value) for stmt in func.node.body if isinstance(stmt, (ast.Assign, ast.AnnAssign)) and stmt.value is not None
+                         and all(isinstance(t, ast.Name) for t in (stmt.targets if isinstance(stmt, ast.Assign) else [stmt.target])) for value in [stmt.value]}
+            last = max(found, key=lambda item: getattr(item[1], "lineno", 0))
+            if last[0] == "value" and id(last[1]) in top_level and sum(1 for item in found if getattr(item[1], "lineno", 0) >= getattr(last[1], "lineno", 0)) == 1:
+                value = last[1]
+                while isinstance(value, ast.Call) and isinstance(value.func, ast.Attribute) and value.func.attr in _CASE_KEEPING:
+                    value = value.func.value
+                if isinstance(value, ast.Call) and isinstance(value.func, ast.Attribute) and value.func.attr in ("lower", "casefold"):
+                    return None
+            for kind, value, index in found:
+                bad = lowered(func, value, seen, index)
+                if bad is not None:
+                    return bad
+            return None
+        return expr
+
+    built = 0
+    for func in prog.iter_functions():
+        if func.cls != manager:
+            continue
+        for node in walk_local(func.node):
+            if not (isinstance(node, ast.Call) and (dotted(node.func) or "").split(".")[-1] == "FoundPlugin"):
+                continue
+            bound: Dict[str, ast.AST] = {}
+            for index, arg in enumerate(node.args):
+                if index < len(fields):
+                    bound[fields[index]] = arg
+            for keyword in node.keywords:
+                if keyword.arg:
+                    bound[keyword.arg] = keyword.value
+            for field in ("plugin_identifiers", "plugin_id", "plugin_names"):
+                if field not in bound:
+                    continue
+                built += 1
+                key = f"{func.short}: FoundPlugin.{field}"
+                bad = lowered(func, bound[field], set())
+                if bad is None:
+                    rule.ok(key, f"'{norm(bound[field])[:60]}' is lower-cased on every path")
+                else:
+                    rule.fail(key, f"{func.rel}:{node.lineno}", f"FoundPlugin.{field} ('{norm(bound[field])[:60]}') takes a value from '{norm(bad)[:70]}' that was never lower-cased: the -d / -e lists and the configuration sections are looked up in lower case, so a rule whose author used a capital in that identifier cannot be disabled (or configured) by it and keeps receiving every event")
+    if built == 0:
+        raise AnalysisError("no FoundPlugin construction found in the plugin manager (anchor moved)")
+
+
 def run(ctx: Context) -> None:
     ra = RaiseAnalysis(ctx.prog)
     r14ab(ctx, ra)
@@ -1051,6 +1252,7 @@ def run(ctx: Context) -> None:
     r14c(ctx)
     r14d(ctx)
     dispatch_lists_frozen(ctx)
+    identifiers_lowered(ctx)
     r14o(ctx)
     r14e(ctx)
     r14f(ctx)
